@@ -165,6 +165,14 @@ class File(Node):
             if row is not None and row[0] in (FileState.BUILT.value, FileState.OUTDATED.value):
                 state = FileState(row[0])
                 hash_json = row[1]
+            elif (
+                row is not None
+                and state == FileState.UNDECLARED
+                and row[0] == FileState.VOLATILE.value
+            ):
+                # A former volatile output that is merely supplied as an input stays VOLATILE,
+                # so the cleanup still removes the file once nothing uses it anymore.
+                state = FileState.VOLATILE
         # The upsert only assigns the state column when the row already exists,
         # so a recycled hash survives unless the file_clear_hash trigger nulls it afterward.
         # The old hash is nevertheless needed in the parameters below:
